@@ -921,7 +921,10 @@ func csvWriterReuseSize(c *Ctx) {
 				fnKey(fn)+" builds the buffered writer it hands to csv.NewWriter with fewer than 4096 bytes (or a size that is not a constant): csv.NewWriter then wraps it in a buffer of its own, and the flush of the smaller one delivers nothing")
 		})
 	}
-	c.atLeast("writers handed to an unflushed csv.Writer whose size matters", n, 2)
+	if n == 0 {
+		// no csv.Writer is left unflushed (or none is handed a foreign buffered writer): nothing depends on a size
+		c.ok("csv-writer:reuse-size:none", token.NoPos, "no unflushed csv.Writer is handed a buffered writer whose size would matter")
+	}
 }
 
 // recordsAreCopies (part of R-IOCONV, C07): what nextLine hands out outlives the scanner's buffer, which bufio.Scanner
